@@ -458,7 +458,11 @@ CONTRACTS[(PATH, 'force_align', 'positions')] = _fp
 def _at_theory(ex, st):
     st.env = dict(st.env)
     st.env['symbols_seq'] = st.env['transcription']
-    return force_theory(ex, st)
+    names, _axioms = force_theory(ex, st)
+    # align_text is proved from the contract of force_align alone: the defining axioms of the Bellman value function (4-variable
+    # quantifiers with div / mod) are not needed here, and with them in the context z3's matching occasionally ran away on
+    # obligations that otherwise take 20 ms
+    return names, []
 
 
 _n3 = 'len(transcription)'
@@ -477,6 +481,10 @@ CONTRACTS[(PATH, 'align_text')] = Contract(
              # ... and the positions are strictly increasing
              'forall(lambda i, i2: implies(0 <= i and i < i2 and i2 < ' + _n3 + ', result[i] < result[i2]))'],
     loops={0: LoopSpec(counter='kk', inv=['len(char_positions) == ' + _n3, AT_BLOCK % 'kk'])},
+    # why the block of character i is not empty (two small steps instead of one search through the np.nonzero model)
+    ghost_at={'seq_positions = np.nonzero(': [
+        'assert exists(lambda t: 0 <= t and t < ' + _T2 + ' and logit_characters[t] == i)',
+        'assert len(seq_positions) >= 1']},
 )
 
 KEYS = [(PATH, k) for k in ('initial_cost', 'final_cost', 'complete_state_seq', 'hmm_trans_from_string', 'compute_update', 'backtrack', 'viterbi_align', 'force_align', 'align_text')] + [(PATH, 'force_align', 'positions')]
